@@ -14,13 +14,17 @@ PROP = {
         {"target": "c02_timers_rc", "sub": "realtime_never_early",
          "quick": {"cases": 200, "max_size": 50, "workers": 3},
          "thorough": {"cases": 2500, "max_size": 50, "workers": 4}},
+        # kernel wait argument (epoll_wait / select interposed by the harness executable), one real loop pass per step
+        {"target": "c02_timers_rc", "sub": "wait_arg",
+         "quick": {"cases": 5000, "max_size": 50, "workers": 3, "case_alarm": 60},
+         "thorough": {"cases": 150000, "max_size": 50, "workers": 4, "case_alarm": 60}},
         # same op-stream under libFuzzer (default byte decoder, seed corpus corpus/C02/timers on the even workers)
         {"target": "c02_timers_fuzz", "sub": "timers",
          "quick": {"runs": 25000, "max_len": 600, "workers": 3, "unit_timeout": 60},
          "thorough": {"runs": 400000, "max_len": 1000, "workers": 4, "unit_timeout": 60}},
     ],
     "assumptions": [
-        "intervals are 1 ms .. 10^7 ms (the statement's d >= 1 ms; an interval of 0 is outside the domain)",
+        "intervals are 1 ms .. 2^41 ms, with a generated tail around 2^31, 2^32, 2^33, multiples of 2^32 and 2^40 ms (the statement's d >= 1 ms; an interval of 0 is outside the domain)",
         "a TimerEvent is never destroyed inside its own callback (asserted precondition of ~TimerEventImpl); every other operation is also issued from inside callbacks",
         "enable() on a timer that is already enabled is taken to be idempotent: it does not restart the running interval (Event::enable() returns true and does nothing, as in the other event kinds); 'enabled at time t' is the enable() that took the timer from disabled to enabled",
         "initialize() on an enabled timer disables it (the implementation documents this by calling disable() first); the new interval/mode apply from the next enable()",
@@ -29,13 +33,14 @@ PROP = {
         "after more than 300 callbacks in one loop pass every persistent timer that fires disables (cancels) itself in its callback, in the model and in the real code alike; this bounds 2^31/2^40 ms jumps over 1 ms timers",
         "TimerPool: one pool object is used across cleanup() calls (from outside and from inside task callbacks); a token whose task is gone (cancelled, fired doAfter task, swept by an earlier cleanup()) is stale: cancel() with it must answer false and must not touch any pending task; cancel() with the own token of a pending task must answer true (left free only inside that doAfter task's own callback, where the pool has not released the token yet); doAt() is not used (wall clock)",
         "the clock may move on inside a loop pass (callbacks that take time): t_enable is the clock at the enable() call; after a pass only deadlines that had been reached when the pass began (the loop reads its clock once per pass) must have been served, a deadline reached while the pass was running may be served in that pass or the next; deadline order is required among all enabled timers at every callback",
+        "wait_arg: epoll_wait / epoll_pwait / select are interposed by the harness executable (recorded, forwarded with a zero timeout while a pass of that sub runs); with a timer armed the wait must be finite and not longer than the distance to the nearest deadline; passes with a runInLoop task pending are left free; an unlimited wait on an idle loop is expected but not demanded; a zero wait with nothing due is only counted (busy loop)",
         "all operations are issued on the loop thread (before runLoop() or inside the loop); the real sleep length of epoll_wait/select is not observable under the virtual clock",
         "realtime_never_early: times are compared in whole milliseconds of steady_clock exactly as the loop reads it (read before enable() and after entering the callback), so the check is independent of machine load",
     ],
 }
 META = {
     "design_ref": "DESIGN.md section 4, C02",
-    "technique": "model-based stateful PBT (rapidcheck) + coverage-guided fuzzing (libFuzzer) of generated timer histories dispatched by the production loop in virtual time (hook H1), checked inside every callback and after every loop pass against a reference model of the statement and against model-independent invariants, under ASan/UBSan with pool poisoning (H3); plus a real-clock never-early sub-check without the hook",
-    "level_text": "Generated histories on up to 12 live TimerEvent objects (64 per history) of one loop, on both back-ends (epoll, select), a third of them through one eventx::TimerPool object (doEvery/doAfter/cancel with own and with stale tokens, cleanup() from outside and from inside task callbacks with the pool used on afterwards): operations outside callbacks (create, initialize / re-initialize while enabled, enable, enable twice, disable, destroy, before runLoop() or inside the running loop) slow non-timer work between operations, callbacks that take 1..90 ms or a whole interval before and/or after their action (the virtual clock moves inside the loop pass), interleaved with virtual-clock advances (0, 1, to the next deadline minus 1, exactly to the next deadline, k periods + r of a persistent timer, 2^31, 2^40; clock origins 1, 10^6, 2^31-3, 2^32-3, 2^52) and per-timer callback scripts indexed by firing number (disable/cancel self, disable / enable / re-initialize / re-initialize+enable / restart / destroy another timer with a bias to timers that are due in the same pass, re-initialize self with a new period or mode, re-enable a one-shot from its own callback, create and enable a brand-new timer). Inside every callback the harness checks that the timer exists, is enabled, has reached its deadline and holds the smallest deadline of all enabled timers (sequence of groups of equal deadline, order inside a group free), that the k-th callback is not before t_enable + k*d, and isEnabled() (false inside a one-shot's callback); after every pass that no enabled timer is left whose deadline had been reached when the pass began and that every enabled persistent timer has been invoked between floor((pass_start - t_enable)/d) and floor((now - t_enable)/d) times (equal unless a callback took time); after every operation that isEnabled() of every live timer agrees with the model; at the end everything pending is served, everything is disabled, then destroyed, and the loop keeps running 2^34+2^35 ms further without any callback. Use-after-free of pooled timer records or destroyed events is reported by ASan. A second sub-check runs 3 timers (intervals mostly 1 ms apart, restart/disable scripts) on the real steady_clock without the hook and asserts only 'never early'. Exploration only: no counter-example among N generated histories.",
-    "level_note": "Trusted: the reference model in harness/C02/timers.cpp (a handful of lines per operation, written from the statement), the virtual clock hook H1 (cross-checked by the real-clock sub-check for the never-early direction), ASan/UBSan. Not asserted: order inside a group of equal deadlines, the number of loop passes between deadline and callback (up to 3 extra passes tolerated, never needed), return values of enable/disable/initialize/cancel, real sleep lengths. Bounds: intervals 1..10^7 ms, <= 12 live timers, <= 300 operations per history, firing storms cut off after 300 callbacks per pass by self-disabling callbacks.",
+    "technique": "kernel-wait interposition (epoll_wait/select defined by the harness executable) + model-based stateful PBT (rapidcheck) + coverage-guided fuzzing (libFuzzer) of generated timer histories dispatched by the production loop in virtual time (hook H1), checked inside every callback and after every loop pass against a reference model of the statement and against model-independent invariants, under ASan/UBSan with pool poisoning (H3); plus a real-clock never-early sub-check without the hook",
+    "level_text": "Generated histories on up to 12 live TimerEvent objects (64 per history) of one loop, on both back-ends (epoll, select), a third of them through one eventx::TimerPool object (doEvery/doAfter/cancel with own and with stale tokens, cleanup() from outside and from inside task callbacks with the pool used on afterwards): operations outside callbacks (create, initialize / re-initialize while enabled, enable, enable twice, disable, destroy, before runLoop() or inside the running loop) slow non-timer work between operations, callbacks that take 1..90 ms or a whole interval before and/or after their action (the virtual clock moves inside the loop pass), interleaved with virtual-clock advances (0, 1, to the next deadline minus 1, exactly to the next deadline, k periods + r of a persistent timer, 2^31, 2^32-1, 2^32, 2^32+x, 2^40; clock origins 1, 10^6, 2^31-3, 2^32-3, 2^52) and per-timer callback scripts indexed by firing number (disable/cancel self, disable / enable / re-initialize / re-initialize+enable / restart / destroy another timer with a bias to timers that are due in the same pass, re-initialize self with a new period or mode, re-enable a one-shot from its own callback, create and enable a brand-new timer). Inside every callback the harness checks that the timer exists, is enabled, has reached its deadline and holds the smallest deadline of all enabled timers (sequence of groups of equal deadline, order inside a group free), that the k-th callback is not before t_enable + k*d, and isEnabled() (false inside a one-shot's callback); after every pass that no enabled timer is left whose deadline had been reached when the pass began and that every enabled persistent timer has been invoked between floor((pass_start - t_enable)/d) and floor((now - t_enable)/d) times (equal unless a callback took time); after every operation that isEnabled() of every live timer agrees with the model; at the end everything pending is served, everything is disabled, then destroyed, and the loop keeps running 2^34+2^35 ms further without any callback. Use-after-free of pooled timer records or destroyed events is reported by ASan. A third sub-check (wait_arg) runs one real loop pass per step with epoll_wait/select interposed and checks the timeout handed to the kernel for generated sets of armed/disabled timers (intervals incl. the 2^31/2^32 tails), pending runNext/runInLoop work and clock positions relative to the nearest deadline: finite while a timer is armed, never beyond the nearest deadline. A second sub-check runs 3 timers (intervals mostly 1 ms apart, restart/disable scripts) on the real steady_clock without the hook and asserts only 'never early'. Exploration only: no counter-example among N generated histories.",
+    "level_note": "Trusted: the reference model in harness/C02/timers.cpp (a handful of lines per operation, written from the statement), the virtual clock hook H1 (cross-checked by the real-clock sub-check for the never-early direction), ASan/UBSan. Not asserted: order inside a group of equal deadlines, the number of loop passes between deadline and callback (up to 3 extra passes tolerated, never needed), return values of enable/disable/initialize/cancel, real sleep lengths. Bounds: intervals 1..2^41 ms, <= 12 live timers, <= 300 operations per history, firing storms cut off after 300 callbacks per pass by self-disabling callbacks.",
 }
